@@ -92,3 +92,21 @@ CHECKS["C06"] = {
          "reach": ["skipped-some", "end"], "budget_quick": 900, "budget_thorough": 7200},
     ],
 }
+
+C07F = [G + "c07_close.go", G + "c06_reload.go", "rt/fs_model.go"] + MUX
+
+
+def c07run(name, variant, disk, kq, kt):
+    return {"name": name, "files": C07F, "fn": "VerifH_C07_close", "workers": 16, "params": {"VARIANT": variant, "DISK": disk},
+            "params_quick": {"K": kq}, "params_thorough": {"K": kt}, "preempt_quick": 1, "preempt_thorough": 3,
+            "reach": ["closed", "pending-request", "end"], "budget_quick": 900, "budget_thorough": 7200, "replay_timeout": 120}
+
+
+CHECKS["C07"] = {
+    "technique": "pending request threads + real Close with symbolic preemption at its synchronisation points; in-harness file system for Directory storage",
+    "bounds": {"quick": {"writes before Close": "0..K, K=2 (LL), K=3 (fMP4, disk), K=2 (MPEG-TS, disk)", "pending requests": "1..2 of 4 kinds", "preemptions": 1},
+               "thorough": {"writes before Close": "0..K, K=4", "pending requests": "1..2 of 4 kinds", "preemptions": 3}},
+    "assumptions": MUX_STUBS + ["preemption only at synchronisation points", "os.Create/Open/Remove and *os.File methods replaced by an in-harness POSIX-like file system"],
+    "outside": ["wall-clock promptness", "OS-level removal semantics", "more than two pending requests"],
+    "runs": [c07run("conc.close.ll", 3, 0, 2, 4), c07run("conc.close.fmp4.disk", 2, 1, 3, 4), c07run("conc.close.ts.disk", 1, 1, 2, 4)],
+}
